@@ -121,7 +121,7 @@ fn session(t: &TestingOhkami, script: Vec<Vec<u8>>, eof: bool) -> Value {
             req.as_mut().get_mut().__verif_clear();
             match req.as_mut().__verif_read(&mut conn).await {
                 Ok(Some(())) => {
-                    let close = matches!(req.headers.Connection(), Some("close" | "Close"));
+                    let close = req.headers.Connection().is_some_and(|options| options.split(',').any(|option| option.trim().eq_ignore_ascii_case("close")));          // (the mirror follows session/mod.rs)
                     let res = t.__verif_handle(req.as_mut().get_mut()).await;
                     let mut w = Vec::new();
                     res.__verif_send(&mut w).await;
